@@ -140,7 +140,7 @@ def m_float(eng, x=0.0):
 def float_of_str(eng, x):
     """outcome-class model of float(str): ValueError, or an arbitrary float (value uninterpreted)"""
     tag = "float()#%d" % eng.fresh_id()
-    ok = nondet_bool_sym(eng, tag + ":ok")
+    ok = nondet_bool_sym(eng, tag + ":ok", model=True)
     if eng.truth(ok):
         v = z3.FP(tag + ":val", F64)
         return SymFloat(v)
@@ -163,7 +163,16 @@ def _float_classes():
         classes = list(single.values())
         classes.append(([(48, 57)], "7"))
         classes.append((_ranges_where(lambda ch: ch.isdecimal() and ord(ch) > 127), "\u0663"))
-        classes.append((_ranges_where(lambda ch: ch.isspace()), " "))
+        def strips(ch):
+            # white space as float() sees it (str.isspace() is true for U+001C..U+001F, float() does not strip them)
+            if not ch.isspace():
+                return False
+            try:
+                float(ch + "1")
+                return True
+            except ValueError:
+                return False
+        classes.append((_ranges_where(strips), " "))
         _FLOAT_CLASSES = classes
     return _FLOAT_CLASSES
 
@@ -686,6 +695,7 @@ def m_pack(eng, fmt, *vals):
                     # unpack() of exactly these bytes gives the value back. Over-approximation: no other
                     # relation between the value and its bytes is assumed.
                     key = ("ival", fv_sym.ival.t.get_id())
+                    eng.keep.append(fv_sym.ival.t)
                     bv = eng.fp_pack_cache.get(key)
                     if bv is None:
                         bv = z3.BitVec("_f64_%d" % eng.fresh_id(), 64)
@@ -695,9 +705,13 @@ def m_pack(eng, fmt, *vals):
                     # real-enclosure / quotient / decimal-defined double: its 8 bytes are an uninterpreted word
                     # (same value -> same word); unpack() of exactly these bytes gives the value back
                     if fv_sym.quot is not None:
-                        key = ("quot", zint(fv_sym.quot[0]).get_id(), fv_sym.quot[1])
+                        qt = zint(fv_sym.quot[0])
+                        eng.keep.append(qt)
+                        key = ("quot", qt.get_id(), fv_sym.quot[1])
                     else:
-                        key = ("real", eng.real_of(fv_sym).get_id())
+                        rt = eng.real_of(fv_sym)
+                        eng.keep.append(rt)
+                        key = ("real", rt.get_id())
                     bv = eng.fp_pack_cache.get(key)
                     if bv is None:
                         bv = z3.BitVec("_f64_%d" % eng.fresh_id(), 64)
@@ -706,6 +720,7 @@ def m_pack(eng, fmt, *vals):
                         eng.__dict__.setdefault("keepalive", []).append((bv, fv_sym))
                 else:
                     fv = eng.to_fp(fv_sym)
+                    eng.keep.append(fv)
                     key = ("fp", fv.get_id())
                     bv = eng.fp_pack_cache.get(key)
                     if bv is None:
@@ -840,7 +855,12 @@ def m_unmodelled(name):
 
 
 # ------------------------------------------------------------------------------- api
-def nondet_bool_sym(eng, tag):
+def nondet_bool_sym(eng, tag, model=False):
+    """a nondeterministic boolean. model=True: the choice is made inside a library MODEL that over-approximates native
+    behaviour (both outcomes are explored although the native run realises only one): a native replay of such a path may
+    legitimately end differently, which is then not counted as an interpreter mismatch"""
+    if model:
+        eng.path_model_nondet = True
     i = eng.nondet_n.get(tag, 0)
     eng.nondet_n[tag] = i + 1
     name = f"nd:{tag}#{i}"
@@ -973,11 +993,61 @@ def sym_format(eng, x, spec):
                 h = len(pad) // 2
                 return mkstr(pad[:h] + cs + pad[h:])
             return mkstr(cs + pad)
+    if isinstance(x, SymDecimal) and spec == "f":
+        # positional notation; the digits and the exponent are kept as they are (trailing zeros included)
+        digits, ex = list(x.digits), x.exponent
+        n = len(digits)
+        ds = [eng.op("Add", d, 48) for d in digits]
+        if ex >= 0:
+            body = ds + [48] * ex
+        else:
+            p_ = n + ex
+            if p_ > 0:
+                body = ds[:p_] + [46] + ds[p_:]
+            else:
+                body = [48, 46] + [48] * (-p_) + ds
+        neg = x.neg if isinstance(x.neg, bool) else eng.truth(x.neg)
+        return mkstr(([45] if neg else []) + body)
+    if isinstance(x, SymFloat) and x.quot is not None:
+        m = _re.fullmatch(r"\.(\d+)f", spec)
+        if m:
+            return fmt_fixed_quot(eng, x, int(m.group(1)))
     if isinstance(x, SymFloat) and x.dec is not None:
         m = _re.fullmatch(r"\.(\d+)([eE])", spec)
         if m:
             return fmt_exp(eng, x, int(m.group(1)), m.group(2))
     raise Unsupported(f"format spec {spec!r} on symbolic {type(x).__name__}")
+
+
+def fmt_fixed_quot(eng, x, k):
+    """format(a / 10^m, '.<k>f') for a non-negative symbolic integer a: the correctly rounded decimal of the double. The
+    double is within 2^-53 (relative) of a/10^m, while every rounding boundary other than a/10^m itself is at least
+    0.5 * 10^-m away: away from exact decimal ties the result is a/10^m rounded to k decimals; on a tie the direction
+    depends on the binary value and both outcomes are explored."""
+    a, den = x.quot
+    mexp = len(str(den)) - 1
+    if den != 10 ** mexp or not eng.must(eng.cmp("GtE", a, 0)):
+        raise Unsupported("format '.Nf' of a quotient that is not a non-negative multiple of a power of ten")
+    if k >= mexp:
+        n = eng.op("Mult", a, 10 ** (k - mexp))
+    else:
+        step = 10 ** (mexp - k)
+        q = eng.op("FloorDiv", a, step)
+        r = eng.op("Mod", a, step)
+        twice = eng.op("Mult", r, 2)
+        if eng.truth(eng.cmp("Gt", twice, step)):
+            n = eng.op("Add", q, 1)
+        elif eng.truth(eng.cmp("Lt", twice, step)):
+            n = q
+        else:
+            up = eng.truth(nondet_bool_sym(eng, "format-tie#%d" % eng.fresh_id(), model=True))
+            n = eng.op("Add", q, 1) if up else q
+    cs = list(chars(eng.int_to_str(n) if is_sym(n) else str(n)))
+    if len(cs) < k + 1:
+        cs = [48] * (k + 1 - len(cs)) + cs
+    if k:
+        cs = cs[:-k] + [46] + cs[-k:]
+    return mkstr(cs)
 
 
 def fmt_exp(eng, x, places, letter):
@@ -998,7 +1068,7 @@ def fmt_exp(eng, x, places, letter):
         if len(tail) == 1:
             # the last digit of a shortest representation is non-zero: a tie iff it is 5
             if eng.truth(eng.cmp("Eq", t0, 5)):
-                up = eng.truth(nondet_bool_sym(eng, "format-tie#%d" % eng.fresh_id()))
+                up = eng.truth(nondet_bool_sym(eng, "format-tie#%d" % eng.fresh_id(), model=True))
             else:
                 up = eng.truth(eng.cmp("Gt", t0, 5))
         else:
@@ -1043,6 +1113,38 @@ def m_decimal(eng, x="0", *a):
             return SymDecimal(neg, [eng.op("Sub", c, 48) for c in chars(s)], 0)
     if isinstance(x, (SymInt, SymBV)):
         return m_decimal(eng, LazyStr([("int", x)]))
+    if isinstance(x, LazyStr):
+        x = eng.force_str(x)
+    if isinstance(x, SymStr):
+        # a plain decimal string [-]digits[.digits] whose digit characters may be symbolic (structure concrete)
+        cs = list(x.cs)
+        neg = False
+        if cs and isinstance(cs[0], int) and cs[0] in (45, 43):
+            neg = cs[0] == 45
+            cs = cs[1:]
+        if not cs:
+            raise decimal.InvalidOperation("empty")
+        point = [i for i, c in enumerate(cs) if isinstance(c, int) and c == 46]
+        if len(point) > 1:
+            raise decimal.InvalidOperation("two points")
+        ip = cs[:point[0]] if point else cs
+        fp = cs[point[0] + 1:] if point else []
+        digs = []
+        for c in ip + fp:
+            if isinstance(c, int):
+                if not 48 <= c <= 57:
+                    raise Unsupported("Decimal of a symbolic string that is not a plain positional decimal")
+                digs.append(c - 48)
+            else:
+                if not eng.must(eng.and_(eng.cmp("GtE", c, 48), eng.cmp("LtE", c, 57))):
+                    raise Unsupported("Decimal of a symbolic string with a possibly non-digit character")
+                digs.append(eng.op("Sub", c, 48))
+        if len(ip) > 1 and not (isinstance(ip[0], int) and ip[0] != 48) and \
+                not (not isinstance(ip[0], int) and eng.must(eng.cmp("NotEq", ip[0], 48))):
+            raise Unsupported("Decimal of a symbolic string that may have leading zeros")
+        if not ip:
+            raise Unsupported("Decimal of a symbolic string without integer digits")
+        return SymDecimal(neg, digs, -len(fp))
     if deep_sym(x):
         raise Unsupported("Decimal of symbolic " + type(x).__name__)
     return decimal.Decimal(x, *a)
